@@ -883,7 +883,9 @@ class DelayedAttr(Delayed):
 
     @property
     def dask(self):
-        layer = {self._key: (getattr, self._obj._key, self._attr)}
+        layer = {
+            self._key: Task(self._key, getattr, TaskRef(self._obj._key), self._attr)
+        }
         return HighLevelGraph.from_collections(
             self._key, layer, dependencies=[self._obj]
         )
